@@ -5,6 +5,7 @@
 -/
 import InjModel.Generated.Layout
 import InjModel.Lemmas.Sig
+import InjModel.Lemmas.SigText
 import InjModel.Lemmas.Machine
 namespace Inj.Props
 open Inj Inj.Sig
@@ -22,24 +23,48 @@ theorem C10_gate (f : FnTy) : boolGate (renderFn f) = true ↔ f.ret = Ty.prim b
   have hsrc : boolGate (renderFn f) = boolGateTopLevel (renderFn f) := by
     unfold boolGate; rw [C10_source.1]
   rw [hsrc]
-  unfold boolGateTopLevel
-  rw [afterParams_renderFn]
-  simp only [beq_iff_eq]
-  cases hr : f.ret with
-  | tuple ts =>
-    cases ts with
-    | nil => simp [renderRet]
-    | cons t ts =>
-      simp only [renderRet, List.cons.injEq, true_and]
-      exact render_eq_bool _
-  | prim n => simp only [renderRet, List.cons.injEq, true_and]; exact render_eq_bool _
-  | ref m t => simp only [renderRet, List.cons.injEq, true_and]; exact render_eq_bool _
-  | ptr m t => simp only [renderRet, List.cons.injEq, true_and]; exact render_eq_bool _
-  | slice t => simp only [renderRet, List.cons.injEq, true_and]; exact render_eq_bool _
-  | array t n => simp only [renderRet, List.cons.injEq, true_and]; exact render_eq_bool _
-  | app n args => simp only [renderRet, List.cons.injEq, true_and]; exact render_eq_bool _
-  | fn_ g => simp only [renderRet, List.cons.injEq, true_and]; exact render_eq_bool _
-  | dynfn ps r => simp only [renderRet, List.cons.injEq, true_and]; exact render_eq_bool _
+  exact topLevel_renderFn f
+
+/-- **Gate on the recorded text itself (chars, byte offsets, `trim`).**  For every function-pointer
+    type, spelled the way `type_name` spaces it with any spelling of identifiers that contains neither
+    parentheses nor white space (and spells only `bool` as `bool`), the char-level scan
+    `Sig.returnsBoolText` accepts exactly when the return type is `bool`.  `Tie/SigText.T_sig_returns_bool`
+    proves the *translated* `signature_returns_bool` equal to `returnsBoolText` on every text, so this is
+    the gate clause of C10 for the code as translated on this run (`T_c10_gate_translated`). -/
+theorem C10_gate_text (nm : Names) (ok : NamesOK nm) (f : FnTy) :
+    returnsBoolText (spellC nm (renderFn f)) = true ↔ f.ret = Ty.prim boolId :=
+  returnsBoolText_renderFn nm ok f
+
+/-- the hypotheses of `C10_gate_text` are satisfiable: a spelling of names that meets `NamesOK` -/
+def exampleNames : Names :=
+  { id := fun n => if n = boolId then ['b', 'o', 'o', 'l'] else 'T' :: List.replicate n 'x',
+    num := fun n => List.replicate (n + 1) '1',
+    abi := fun _ => ['C'] }
+
+theorem exampleNames_ok : NamesOK exampleNames := by
+  refine ⟨?_, ?_, ?_, ?_⟩
+  · intro n c hc
+    simp only [exampleNames] at hc
+    split at hc
+    · simp at hc; rcases hc with rfl | rfl | rfl <;> decide
+    · simp at hc
+      rcases hc with rfl | ⟨_, rfl⟩ <;> decide
+  · intro n
+    simp only [exampleNames]
+    constructor
+    · intro h
+      split at h
+      · assumption
+      · simp at h
+    · intro h; simp [h]
+  · intro n c hc
+    simp only [exampleNames] at hc
+    simp at hc
+    rcases hc with ⟨_, rfl⟩
+    decide
+  · intro a c hc
+    simp only [exampleNames] at hc
+    simp at hc; subst hc; decide
 
 /-- the unchecked entry point carries the empty signature: always refused -/
 theorem C10_gate_unchecked : boolGate [] = false := by
@@ -81,6 +106,15 @@ example : boolGate (renderFn (FnTy.mk false 0 (TyList.cons (Ty.prim 1) TyList.ni
   | false => rfl
   | true => have := (C10_gate _).mp h; simp [FnTy.ret] at this
 
+/-- non-vacuity on the text: the spelled `fn(T1) -> bool` is accepted, the spelled `fn() -> fn() -> bool` is not -/
+example : returnsBoolText (spellC exampleNames (renderFn (FnTy.mk false 0 (TyList.cons (Ty.prim 1) TyList.nil) (Ty.prim boolId)))) = true :=
+  (C10_gate_text exampleNames exampleNames_ok _).mpr rfl
+example : returnsBoolText (spellC exampleNames (renderFn (FnTy.mk false 0 TyList.nil
+    (Ty.fn_ (FnTy.mk false 0 TyList.nil (Ty.prim boolId)))))) = false := by
+  cases h : returnsBoolText (spellC exampleNames (renderFn (FnTy.mk false 0 TyList.nil (Ty.fn_ (FnTy.mk false 0 TyList.nil (Ty.prim boolId)))))) with
+  | false => rfl
+  | true => have := (C10_gate_text exampleNames exampleNames_ok _).mp h; simp [FnTy.ret] at this
+
 /-- the model's state is complete for the back ends: `injector_core` declares no process-wide or
     thread-local mutable state (regenerated from the source on every run) -/
 theorem C10_state_modelled : Generated.Layout.coreStatics = [] := by decide
@@ -90,6 +124,8 @@ end Inj.Props
 #print axioms Inj.Props.C10_source
 #print axioms Inj.Props.C10_gate
 #print axioms Inj.Props.C10_gate_unchecked
+#print axioms Inj.Props.C10_gate_text
+#print axioms Inj.Props.exampleNames_ok
 #print axioms Inj.Props.C10_endsWith_false
 #print axioms Inj.Props.C10_stub
 #print axioms Inj.Props.C10_stub_bytes
